@@ -6,11 +6,16 @@
     int64 wraps (Base/GoSem.v).  The lemmas below state that the hand-written model of C02/Model.v
     computes exactly those expressions on exactly those operands (the [_atoms] lists name the Go
     operands).  An edit of the Go source that changes a comparison, a constant, an operand or the
-    order of these guards changes the generated file and re-opens these obligations. *)
+    order of these guards changes the generated file and re-opens these obligations.
+    Second part (go2coq second revision): the bare-atom conditions, field stores, call/constant
+    assignments, ++/-- and for-init of the same functions, and the remaining anchored functions
+    (getVote, SetPeerMaj23, blockVotes, accessors, Vote.CommitSig/Verify/ValidateBasic, CommitSig.*,
+    Commit.ValidateBasic, CommitToVoteSet, ValidatorSet.GetByIndex/TotalVotingPower, PartSetHeader,
+    consensus/types.HeightVoteSet) are tied to Model.v / ModelExt.v. *)
 From Coq Require Import List ZArith NArith Bool Lia String.
 From Kardia Require Import Base.Int64 Base.GoSem.
 From Kardia Require Import Generated.C02Source.
-From Kardia Require Import Generated.C02Facts C02.Model.
+From Kardia Require Import Generated.C02Facts C02.Model C02.ModelExt.
 Import ListNotations.
 Local Open Scope Z_scope.
 
@@ -139,6 +144,778 @@ Lemma src_bid_atoms :
   /\ forall x y, types__BlockID_Equal__ret_blockID_Hash_Equal_other_Hash_and_blockID_PartsHeader_Equals_d815eb38 x y = (x && y)%bool.
 Proof. repeat split; reflexivity. Qed.
 
+(* ================================================================== *)
+(** * Second part: go2coq second revision *)
+
+Lemma Zof_N_eqb a b : (Z.of_N a =? Z.of_N b) = N.eqb a b.
+Proof. destruct (N.eqb_spec a b); destruct (Z.eqb_spec (Z.of_N a) (Z.of_N b)); try reflexivity; lia. Qed.
+Lemma Zof_N_neqb a b : go_neqb (Z.of_N a) (Z.of_N b) = negb (N.eqb a b).
+Proof. unfold go_neqb. rewrite Zof_N_eqb. reflexivity. Qed.
+Lemma Zof_nat_eqb0 n : (Z.of_nat n =? 0) = Nat.eqb n 0.
+Proof. destruct n; reflexivity. Qed.
+
+(** a condition that is a single atom: the atom is pinned, and its polarity *)
+Definition pinned1 (f : bool -> bool) (atoms : list string) (positive : bool) (a : string) : Prop :=
+  atoms = [a] /\ forall b, f b = if positive then b else negb b.
+
+Definition pins_VoteSet_addVote : Prop :=
+  pinned1 types__VoteSet_addVote__if_vote_eq_nil types__VoteSet_addVote__if_vote_eq_nil_atoms true "vote == nil : untyped bool" /\
+  pinned1 types__VoteSet_addVote__if_valAddr_Equal_cmn_Address types__VoteSet_addVote__if_valAddr_Equal_cmn_Address_atoms true "valAddr.Equal(cmn.Address{}) : bool" /\
+  pinned1 types__VoteSet_addVote__if_val_eq_nil types__VoteSet_addVote__if_val_eq_nil_atoms true "val == nil : untyped bool" /\
+  pinned1 types__VoteSet_addVote__if_not_valAddr_Equal_lookupAddr types__VoteSet_addVote__if_not_valAddr_Equal_lookupAddr_atoms false "valAddr.Equal(lookupAddr) : bool" /\
+  pinned1 types__VoteSet_addVote__if_ok types__VoteSet_addVote__if_ok_atoms true "ok : bool" /\
+  pinned1 types__VoteSet_addVote__if_bytes_Equal_existing_Signature_vote_Signature types__VoteSet_addVote__if_bytes_Equal_existing_Signature_vote_Signature_atoms true "bytes.Equal(existing.Signature, vote.Signature) : bool" /\
+  pinned1 types__VoteSet_addVote__if_err_ne_nil types__VoteSet_addVote__if_err_ne_nil_atoms true "err != nil : untyped bool" /\
+  pinned1 types__VoteSet_addVote__if_conflicting_ne_nil types__VoteSet_addVote__if_conflicting_ne_nil_atoms true "conflicting != nil : untyped bool" /\
+  pinned1 types__VoteSet_addVote__if_not_added types__VoteSet_addVote__if_not_added_atoms false "added : bool".
+Lemma pins_VoteSet_addVote_ok : pins_VoteSet_addVote. Proof. unfold pins_VoteSet_addVote, pinned1. repeat split. Qed.
+
+Definition pins_VoteSet_addVerifiedVote : Prop :=
+  pinned1 types__VoteSet_addVerifiedVote__if_existing_ne_nil types__VoteSet_addVerifiedVote__if_existing_ne_nil_atoms true "existing != nil : untyped bool" /\
+  pinned1 types__VoteSet_addVerifiedVote__if_existing_BlockID_Equal_vote_BlockID types__VoteSet_addVerifiedVote__if_existing_BlockID_Equal_vote_BlockID_atoms true "existing.BlockID.Equal(vote.BlockID) : bool" /\
+  pinned1 types__VoteSet_addVerifiedVote__if_ok types__VoteSet_addVerifiedVote__if_ok_atoms true "ok : bool" /\
+  pinned1 types__VoteSet_addVerifiedVote__if_conflicting_ne_nil types__VoteSet_addVerifiedVote__if_conflicting_ne_nil_atoms true "conflicting != nil : untyped bool" /\
+  pinned1 types__VoteSet_addVerifiedVote__if_voteSet_maj23_eq_nil types__VoteSet_addVerifiedVote__if_voteSet_maj23_eq_nil_atoms true "voteSet.maj23 == nil : untyped bool" /\
+  pinned1 types__VoteSet_addVerifiedVote__if_vote_ne_nil types__VoteSet_addVerifiedVote__if_vote_ne_nil_atoms true "vote != nil : untyped bool".
+Lemma pins_VoteSet_addVerifiedVote_ok : pins_VoteSet_addVerifiedVote. Proof. unfold pins_VoteSet_addVerifiedVote, pinned1. repeat split. Qed.
+
+Definition pins_VoteSet_HasTwoThirdsAny : Prop :=
+  pinned1 types__VoteSet_HasTwoThirdsAny__if_voteSet_eq_nil types__VoteSet_HasTwoThirdsAny__if_voteSet_eq_nil_atoms true "voteSet == nil : untyped bool".
+Lemma pins_VoteSet_HasTwoThirdsAny_ok : pins_VoteSet_HasTwoThirdsAny. Proof. unfold pins_VoteSet_HasTwoThirdsAny, pinned1. repeat split. Qed.
+
+Definition pins_VoteSet_MakeCommit : Prop :=
+  pinned1 types__VoteSet_MakeCommit__if_voteSet_maj23_eq_nil types__VoteSet_MakeCommit__if_voteSet_maj23_eq_nil_atoms true "voteSet.maj23 == nil : untyped bool".
+Lemma pins_VoteSet_MakeCommit_ok : pins_VoteSet_MakeCommit. Proof. unfold pins_VoteSet_MakeCommit, pinned1. repeat split. Qed.
+
+Definition pins_ValidatorSet_VerifyCommit : Prop :=
+  pinned1 types__ValidatorSet_VerifyCommit__if_vs_eq_nil types__ValidatorSet_VerifyCommit__if_vs_eq_nil_atoms true "vs == nil : untyped bool" /\
+  pinned1 types__ValidatorSet_VerifyCommit__if_commit_eq_nil types__ValidatorSet_VerifyCommit__if_commit_eq_nil_atoms true "commit == nil : untyped bool" /\
+  pinned1 types__ValidatorSet_VerifyCommit__if_err_ne_nil types__ValidatorSet_VerifyCommit__if_err_ne_nil_atoms true "err != nil : untyped bool" /\
+  pinned1 types__ValidatorSet_VerifyCommit__if_not_blockID_Equal_commit_BlockID types__ValidatorSet_VerifyCommit__if_not_blockID_Equal_commit_BlockID_atoms false "blockID.Equal(commit.BlockID) : bool" /\
+  pinned1 types__ValidatorSet_VerifyCommit__if_commitSig_Absent types__ValidatorSet_VerifyCommit__if_commitSig_Absent_atoms true "commitSig.Absent() : bool" /\
+  pinned1 types__ValidatorSet_VerifyCommit__if_not_commitSig_ValidatorAddress_Equal_val_Address types__ValidatorSet_VerifyCommit__if_not_commitSig_ValidatorAddress_Equal_val_Address_atoms false "commitSig.ValidatorAddress.Equal(val.Address) : bool" /\
+  pinned1 types__ValidatorSet_VerifyCommit__if_not_VerifySignature_val_Address_crypto_Keccak256_signBytes_c_6727322a types__ValidatorSet_VerifyCommit__if_not_VerifySignature_val_Address_crypto_Keccak256_signBytes_c_6727322a_atoms false "VerifySignature(val.Address, crypto.Keccak256(signBytes), commitSig.Signature) : bool" /\
+  pinned1 types__ValidatorSet_VerifyCommit__if_blockID_Equal_commitSig_BlockID_commit_BlockID types__ValidatorSet_VerifyCommit__if_blockID_Equal_commitSig_BlockID_commit_BlockID_atoms true "blockID.Equal(commitSig.BlockID(commit.BlockID)) : bool".
+Lemma pins_ValidatorSet_VerifyCommit_ok : pins_ValidatorSet_VerifyCommit. Proof. unfold pins_ValidatorSet_VerifyCommit, pinned1. repeat split. Qed.
+
+Definition pins_VoteSet_getVote : Prop :=
+  pinned1 types__VoteSet_getVote__if_existing_ne_nil types__VoteSet_getVote__if_existing_ne_nil_atoms true "existing != nil : untyped bool".
+Lemma pins_VoteSet_getVote_ok : pins_VoteSet_getVote. Proof. unfold pins_VoteSet_getVote, pinned1. repeat split. Qed.
+
+Definition pins_VoteSet_SetPeerMaj23 : Prop :=
+  pinned1 types__VoteSet_SetPeerMaj23__if_voteSet_eq_nil types__VoteSet_SetPeerMaj23__if_voteSet_eq_nil_atoms true "voteSet == nil : untyped bool" /\
+  pinned1 types__VoteSet_SetPeerMaj23__if_ok types__VoteSet_SetPeerMaj23__if_ok_atoms true "ok : bool" /\
+  pinned1 types__VoteSet_SetPeerMaj23__if_existing_Equal_blockID types__VoteSet_SetPeerMaj23__if_existing_Equal_blockID_atoms true "existing.Equal(blockID) : bool" /\
+  pinned1 types__VoteSet_SetPeerMaj23__if_ok_2 types__VoteSet_SetPeerMaj23__if_ok_2_atoms true "ok : bool" /\
+  pinned1 types__VoteSet_SetPeerMaj23__if_votesByBlock_peerMaj23 types__VoteSet_SetPeerMaj23__if_votesByBlock_peerMaj23_atoms true "votesByBlock.peerMaj23 : bool".
+Lemma pins_VoteSet_SetPeerMaj23_ok : pins_VoteSet_SetPeerMaj23. Proof. unfold pins_VoteSet_SetPeerMaj23, pinned1. repeat split. Qed.
+
+Definition pins_VoteSet_TwoThirdsMajority : Prop :=
+  pinned1 types__VoteSet_TwoThirdsMajority__if_voteSet_eq_nil types__VoteSet_TwoThirdsMajority__if_voteSet_eq_nil_atoms true "voteSet == nil : untyped bool" /\
+  pinned1 types__VoteSet_TwoThirdsMajority__if_voteSet_maj23_ne_nil types__VoteSet_TwoThirdsMajority__if_voteSet_maj23_ne_nil_atoms true "voteSet.maj23 != nil : untyped bool".
+Lemma pins_VoteSet_TwoThirdsMajority_ok : pins_VoteSet_TwoThirdsMajority. Proof. unfold pins_VoteSet_TwoThirdsMajority, pinned1. repeat split. Qed.
+
+Definition pins_VoteSet_HasTwoThirdsMajority : Prop :=
+  pinned1 types__VoteSet_HasTwoThirdsMajority__if_voteSet_eq_nil types__VoteSet_HasTwoThirdsMajority__if_voteSet_eq_nil_atoms true "voteSet == nil : untyped bool".
+Lemma pins_VoteSet_HasTwoThirdsMajority_ok : pins_VoteSet_HasTwoThirdsMajority. Proof. unfold pins_VoteSet_HasTwoThirdsMajority, pinned1. repeat split. Qed.
+
+Definition pins_VoteSet_IsCommit : Prop :=
+  pinned1 types__VoteSet_IsCommit__if_voteSet_eq_nil types__VoteSet_IsCommit__if_voteSet_eq_nil_atoms true "voteSet == nil : untyped bool".
+Lemma pins_VoteSet_IsCommit_ok : pins_VoteSet_IsCommit. Proof. unfold pins_VoteSet_IsCommit, pinned1. repeat split. Qed.
+
+Definition pins_VoteSet_GetByIndex : Prop :=
+  pinned1 types__VoteSet_GetByIndex__if_voteSet_eq_nil types__VoteSet_GetByIndex__if_voteSet_eq_nil_atoms true "voteSet == nil : untyped bool".
+Lemma pins_VoteSet_GetByIndex_ok : pins_VoteSet_GetByIndex. Proof. unfold pins_VoteSet_GetByIndex, pinned1. repeat split. Qed.
+
+Definition pins_VoteSet_BitArrayByBlockID : Prop :=
+  pinned1 types__VoteSet_BitArrayByBlockID__if_voteSet_eq_nil types__VoteSet_BitArrayByBlockID__if_voteSet_eq_nil_atoms true "voteSet == nil : untyped bool" /\
+  pinned1 types__VoteSet_BitArrayByBlockID__if_ok types__VoteSet_BitArrayByBlockID__if_ok_atoms true "ok : bool".
+Lemma pins_VoteSet_BitArrayByBlockID_ok : pins_VoteSet_BitArrayByBlockID. Proof. unfold pins_VoteSet_BitArrayByBlockID, pinned1. repeat split. Qed.
+
+Definition pins_blockVotes_addVerifiedVote : Prop :=
+  pinned1 types__blockVotes_addVerifiedVote__if_existing_eq_nil types__blockVotes_addVerifiedVote__if_existing_eq_nil_atoms true "existing == nil : untyped bool".
+Lemma pins_blockVotes_addVerifiedVote_ok : pins_blockVotes_addVerifiedVote. Proof. unfold pins_blockVotes_addVerifiedVote, pinned1. repeat split. Qed.
+
+Definition pins_blockVotes_getByIndex : Prop :=
+  pinned1 types__blockVotes_getByIndex__if_vs_eq_nil types__blockVotes_getByIndex__if_vs_eq_nil_atoms true "vs == nil : untyped bool".
+Lemma pins_blockVotes_getByIndex_ok : pins_blockVotes_getByIndex. Proof. unfold pins_blockVotes_getByIndex, pinned1. repeat split. Qed.
+
+Definition pins_Vote_CommitSig : Prop :=
+  pinned1 types__Vote_CommitSig__if_vote_eq_nil types__Vote_CommitSig__if_vote_eq_nil_atoms true "vote == nil : untyped bool" /\
+  pinned1 types__Vote_CommitSig__case_vote_BlockID_IsComplete types__Vote_CommitSig__case_vote_BlockID_IsComplete_atoms true "vote.BlockID.IsComplete() : bool" /\
+  pinned1 types__Vote_CommitSig__case_vote_BlockID_IsZero types__Vote_CommitSig__case_vote_BlockID_IsZero_atoms true "vote.BlockID.IsZero() : bool".
+Lemma pins_Vote_CommitSig_ok : pins_Vote_CommitSig. Proof. unfold pins_Vote_CommitSig, pinned1. repeat split. Qed.
+
+Definition pins_Vote_Verify : Prop :=
+  pinned1 types__Vote_Verify__if_not_vote_ValidatorAddress_Equal_address types__Vote_Verify__if_not_vote_ValidatorAddress_Equal_address_atoms false "vote.ValidatorAddress.Equal(address) : bool" /\
+  pinned1 types__Vote_Verify__if_not_VerifySignature_address_crypto_Keccak256_signBytes_vote_Signature types__Vote_Verify__if_not_VerifySignature_address_crypto_Keccak256_signBytes_vote_Signature_atoms false "VerifySignature(address, crypto.Keccak256(signBytes), vote.Signature) : bool".
+Lemma pins_Vote_Verify_ok : pins_Vote_Verify. Proof. unfold pins_Vote_Verify, pinned1. repeat split. Qed.
+
+Definition pins_Vote_ValidateBasic : Prop :=
+  pinned1 types__Vote_ValidateBasic__if_not_IsVoteTypeValid_vote_Type types__Vote_ValidateBasic__if_not_IsVoteTypeValid_vote_Type_atoms false "IsVoteTypeValid(vote.Type) : bool" /\
+  pinned1 types__Vote_ValidateBasic__if_err_ne_nil types__Vote_ValidateBasic__if_err_ne_nil_atoms true "err != nil : untyped bool".
+Lemma pins_Vote_ValidateBasic_ok : pins_Vote_ValidateBasic. Proof. unfold pins_Vote_ValidateBasic, pinned1. repeat split. Qed.
+
+Definition pins_CommitSig_ValidateBasic : Prop :=
+  pinned1 types__CommitSig_ValidateBasic__if_not_cs_ValidatorAddress_Equal_common_Address types__CommitSig_ValidateBasic__if_not_cs_ValidatorAddress_Equal_common_Address_atoms false "cs.ValidatorAddress.Equal(common.Address{}) : bool" /\
+  pinned1 types__CommitSig_ValidateBasic__if_not_cs_Timestamp_IsZero types__CommitSig_ValidateBasic__if_not_cs_Timestamp_IsZero_atoms false "cs.Timestamp.IsZero() : bool".
+Lemma pins_CommitSig_ValidateBasic_ok : pins_CommitSig_ValidateBasic. Proof. unfold pins_CommitSig_ValidateBasic, pinned1. repeat split. Qed.
+
+Definition pins_Commit_ValidateBasic : Prop :=
+  pinned1 types__Commit_ValidateBasic__if_commit_BlockID_IsZero types__Commit_ValidateBasic__if_commit_BlockID_IsZero_atoms true "commit.BlockID.IsZero() : bool" /\
+  pinned1 types__Commit_ValidateBasic__if_err_ne_nil types__Commit_ValidateBasic__if_err_ne_nil_atoms true "err != nil : untyped bool".
+Lemma pins_Commit_ValidateBasic_ok : pins_Commit_ValidateBasic. Proof. unfold pins_Commit_ValidateBasic, pinned1. repeat split. Qed.
+
+Definition pins_Commit_Size : Prop :=
+  pinned1 types__Commit_Size__if_commit_eq_nil types__Commit_Size__if_commit_eq_nil_atoms true "commit == nil : untyped bool".
+Lemma pins_Commit_Size_ok : pins_Commit_Size. Proof. unfold pins_Commit_Size, pinned1. repeat split. Qed.
+
+Definition pins_CommitToVoteSet : Prop :=
+  pinned1 types__CommitToVoteSet__if_commitSig_Absent types__CommitToVoteSet__if_commitSig_Absent_atoms true "commitSig.Absent() : bool".
+Lemma pins_CommitToVoteSet_ok : pins_CommitToVoteSet. Proof. unfold pins_CommitToVoteSet, pinned1. repeat split. Qed.
+
+Definition pins_HeightVoteSet_addRound : Prop :=
+  pinned1 consensus_types__HeightVoteSet_addRound__if_ok consensus_types__HeightVoteSet_addRound__if_ok_atoms true "ok : bool".
+Lemma pins_HeightVoteSet_addRound_ok : pins_HeightVoteSet_addRound. Proof. unfold pins_HeightVoteSet_addRound, pinned1. repeat split. Qed.
+
+Definition pins_HeightVoteSet_SetRound : Prop :=
+  pinned1 consensus_types__HeightVoteSet_SetRound__if_ok consensus_types__HeightVoteSet_SetRound__if_ok_atoms true "ok : bool".
+Lemma pins_HeightVoteSet_SetRound_ok : pins_HeightVoteSet_SetRound. Proof. unfold pins_HeightVoteSet_SetRound, pinned1. repeat split. Qed.
+
+Definition pins_HeightVoteSet_AddVote : Prop :=
+  pinned1 consensus_types__HeightVoteSet_AddVote__if_not_types_IsVoteTypeValid_vote_Type consensus_types__HeightVoteSet_AddVote__if_not_types_IsVoteTypeValid_vote_Type_atoms false "types.IsVoteTypeValid(vote.Type) : bool" /\
+  pinned1 consensus_types__HeightVoteSet_AddVote__if_voteSet_eq_nil consensus_types__HeightVoteSet_AddVote__if_voteSet_eq_nil_atoms true "voteSet == nil : untyped bool".
+Lemma pins_HeightVoteSet_AddVote_ok : pins_HeightVoteSet_AddVote. Proof. unfold pins_HeightVoteSet_AddVote, pinned1. repeat split. Qed.
+
+Definition pins_HeightVoteSet_getVoteSet : Prop :=
+  pinned1 consensus_types__HeightVoteSet_getVoteSet__if_not_ok consensus_types__HeightVoteSet_getVoteSet__if_not_ok_atoms false "ok : bool".
+Lemma pins_HeightVoteSet_getVoteSet_ok : pins_HeightVoteSet_getVoteSet. Proof. unfold pins_HeightVoteSet_getVoteSet, pinned1. repeat split. Qed.
+
+Definition pins_HeightVoteSet_SetPeerMaj23 : Prop :=
+  pinned1 consensus_types__HeightVoteSet_SetPeerMaj23__if_not_types_IsVoteTypeValid_signedMsgType consensus_types__HeightVoteSet_SetPeerMaj23__if_not_types_IsVoteTypeValid_signedMsgType_atoms false "types.IsVoteTypeValid(signedMsgType) : bool" /\
+  pinned1 consensus_types__HeightVoteSet_SetPeerMaj23__if_voteSet_eq_nil consensus_types__HeightVoteSet_SetPeerMaj23__if_voteSet_eq_nil_atoms true "voteSet == nil : untyped bool".
+Lemma pins_HeightVoteSet_SetPeerMaj23_ok : pins_HeightVoteSet_SetPeerMaj23. Proof. unfold pins_HeightVoteSet_SetPeerMaj23, pinned1. repeat split. Qed.
+
+Definition pins_HeightVoteSet_POLInfo : Prop :=
+  pinned1 consensus_types__HeightVoteSet_POLInfo__if_ok consensus_types__HeightVoteSet_POLInfo__if_ok_atoms true "ok : bool".
+Lemma pins_HeightVoteSet_POLInfo_ok : pins_HeightVoteSet_POLInfo. Proof. unfold pins_HeightVoteSet_POLInfo, pinned1. repeat split. Qed.
+
+
+(** ** VoteSet.addVote / getVote / addVerifiedVote / blockVotes *)
+
+(** AddVote(nil) is ErrVoteNil and changes nothing ([vote == nil] is the first test) *)
+Lemma src_nil_vote vs : add_vote_o vs None = (vs, false, None).
+Proof. reflexivity. Qed.
+
+(** [valIndex < 0] on a uint32 never holds: the model has no such branch *)
+Lemma src_index_never_negative i : types__VoteSet_addVote__if_valIndex_lt_0 (Z.of_N i) = false
+  /\ types__VoteSet_addVote__if_valIndex_lt_0_atoms = ["valIndex : uint32"]%string.
+Proof. split; [|reflexivity]. unfold types__VoteSet_addVote__if_valIndex_lt_0. destruct (Z.ltb_spec (Z.of_N i) 0); [lia|reflexivity]. Qed.
+
+(** ValidatorSet.GetByIndex: [index >= uint32(len(vs.Validators))] is the model's [nth_error = None] *)
+Lemma src_get_by_index (vals : list validator) i :
+  Z.of_nat (List.length vals) <= 4294967295 ->
+  types__ValidatorSet_GetByIndex__if_index_ge_uint32_len_vs_Validators (Z.of_N i) (Z.of_nat (List.length vals))
+  = match nth_error vals (N.to_nat i) with None => true | Some _ => false end.
+Proof.
+  intros Hn. unfold types__ValidatorSet_GetByIndex__if_index_ge_uint32_len_vs_Validators, go_conv.
+  rewrite wrap_id by (unfold in_range; lia).
+  destruct (nth_error vals (N.to_nat i)) eqn:E.
+  - assert (N.to_nat i < List.length vals)%nat by (apply nth_error_Some; congruence).
+    rewrite Z.geb_leb. destruct (Z.leb_spec (Z.of_nat (List.length vals)) (Z.of_N i)); [lia|reflexivity].
+  - apply nth_error_None in E.
+    rewrite Z.geb_leb. destruct (Z.leb_spec (Z.of_nat (List.length vals)) (Z.of_N i)); [reflexivity|lia].
+Qed.
+Lemma src_get_by_index_atoms :
+  types__ValidatorSet_GetByIndex__if_index_ge_uint32_len_vs_Validators_atoms = ["index : uint32"; "len(vs.Validators) : int"]%string.
+Proof. reflexivity. Qed.
+
+(** the vote replaces the stored one iff a majority exists and its key is the vote's key: [maj_is] *)
+Lemma src_maj_is vs b :
+  maj_is vs b = types__VoteSet_addVerifiedVote__if_voteSet_maj23_ne_nil_and_voteSet_maj23_Key_eq_blockKey
+                  (match vs_maj23 vs with Some _ => true | None => false end)
+                  (match vs_maj23 vs with Some m => key_eqb m b | None => false end).
+Proof. unfold maj_is. destruct (vs_maj23 vs); reflexivity. Qed.
+Lemma src_maj_is_atoms :
+  types__VoteSet_addVerifiedVote__if_voteSet_maj23_ne_nil_and_voteSet_maj23_Key_eq_blockKey_atoms
+  = ["voteSet.maj23 != nil : untyped bool"; "voteSet.maj23.Key() == blockKey : untyped bool"]%string.
+Proof. reflexivity. Qed.
+
+(** getVote looks at voteSet.votes first ([existing != nil && key matches]), then at the block's entry *)
+Lemma src_get_vote vs i b :
+  get_vote vs i b =
+  match vote_at (vs_votes vs) i with
+  | Some ex => if types__VoteSet_getVote__if_existing_ne_nil_and_existing_BlockID_Key_eq_blockKey true (key_eqb (v_bid ex) b)
+               then Some ex
+               else match bb_find b (vs_byblock vs) with Some bv => vote_at (bv_votes bv) i | None => None end
+  | None => match bb_find b (vs_byblock vs) with Some bv => vote_at (bv_votes bv) i | None => None end
+  end.
+Proof. unfold get_vote. destruct (vote_at (vs_votes vs) i); reflexivity. Qed.
+Lemma src_get_vote_atoms :
+  types__VoteSet_getVote__if_existing_ne_nil_and_existing_BlockID_Key_eq_blockKey_atoms
+  = ["existing != nil : untyped bool"; "existing.BlockID.Key() == blockKey : untyped bool"]%string.
+Proof. reflexivity. Qed.
+
+(** blockVotes.addVerifiedVote: only a free slot is filled, and its sum is an int64 addition *)
+Lemma src_bv_add bv i v p :
+  bv_sum (bv_add bv i v p) =
+  if types__blockVotes_addVerifiedVote__if_existing_eq_nil (match vote_at (bv_votes bv) i with None => true | Some _ => false end)
+  then types__blockVotes_addVerifiedVote__set_sum_op (bv_sum bv) p else bv_sum bv.
+Proof. unfold bv_add. destruct (vote_at (bv_votes bv) i); reflexivity. Qed.
+Lemma src_bv_add_atoms :
+  types__blockVotes_addVerifiedVote__set_sum_op_atoms = ["vs.sum : int64"; "votingPower : int64"]%string
+  /\ types__blockVotes_addVerifiedVote__if_existing_eq_nil_atoms = ["existing == nil : untyped bool"]%string.
+Proof. split; reflexivity. Qed.
+
+(** SetPeerMaj23 stores [true] in the entry's peerMaj23 *)
+Lemma src_peer_put : types__VoteSet_SetPeerMaj23__put_votesByBlock_peerMaj23 = true.
+Proof. reflexivity. Qed.
+
+(** ** MakeCommit / IsCommit / flags *)
+Lemma src_flags :
+  Z.of_N FLAG_ABSENT = types__BlockIDFlagAbsent /\ Z.of_N FLAG_COMMIT = types__BlockIDFlagCommit
+  /\ Z.of_N FLAG_NIL = types__BlockIDFlagNil
+  /\ types__Vote_CommitSig__let_blockIDFlag = Z.of_N FLAG_COMMIT
+  /\ types__Vote_CommitSig__let_blockIDFlag_2 = Z.of_N FLAG_NIL.
+Proof. repeat split; reflexivity. Qed.
+Lemma src_absent flag : types__CommitSig_Absent__ret_cs_BlockIDFlag_eq_BlockIDFlagAbsent (Z.of_N flag) = N.eqb flag FLAG_ABSENT.
+Proof. exact (Zof_N_eqb flag FLAG_ABSENT). Qed.
+Lemma src_for_block flag : types__CommitSig_ForBlock__ret_cs_BlockIDFlag_eq_BlockIDFlagCommit (Z.of_N flag) = N.eqb flag FLAG_COMMIT.
+Proof. exact (Zof_N_eqb flag FLAG_COMMIT). Qed.
+Lemma src_precommit_guard t :
+  types__VoteSet_MakeCommit__if_voteSet_signedMsgType_ne_kproto_PrecommitType (Z.of_N t) = negb (N.eqb t PRECOMMIT).
+Proof. exact (Zof_N_neqb t PRECOMMIT). Qed.
+Lemma src_is_commit vs :
+  is_commit vs = (negb (types__VoteSet_IsCommit__if_voteSet_signedMsgType_ne_kproto_PrecommitType (Z.of_N (vs_type vs)))
+                  && match vs_maj23 vs with Some _ => true | None => false end)%bool.
+Proof.
+  unfold is_commit, types__VoteSet_IsCommit__if_voteSet_signedMsgType_ne_kproto_PrecommitType.
+  change 2 with (Z.of_N PRECOMMIT). rewrite Zof_N_neqb, negb_involutive. reflexivity.
+Qed.
+(** a for-block signature of another block id is replaced by an absent slot *)
+Lemma src_make_commit_exclude flag eqm :
+  types__VoteSet_MakeCommit__if_commitSig_ForBlock_and_not_v_BlockID_Equal_mul_voteSet_maj23
+    (types__CommitSig_ForBlock__ret_cs_BlockIDFlag_eq_BlockIDFlagCommit (Z.of_N flag)) eqm
+  = (N.eqb flag FLAG_COMMIT && negb eqm)%bool.
+Proof. rewrite src_for_block. reflexivity. Qed.
+Lemma src_make_commit_exclude_atoms :
+  types__VoteSet_MakeCommit__if_commitSig_ForBlock_and_not_v_BlockID_Equal_mul_voteSet_maj23_atoms
+  = ["commitSig.ForBlock() : bool"; "v.BlockID.Equal(*voteSet.maj23) : bool"]%string.
+Proof. reflexivity. Qed.
+
+(** ** Commit.ValidateBasic / CommitSig.ValidateBasic / CommitToVoteSet / NewVoteSet *)
+Lemma src_height0 h : types__NewVoteSet__if_height_eq_0 (Z.of_N h) = N.eqb h 0.
+Proof. exact (Zof_N_eqb h 0). Qed.
+Lemma src_commit_height_ge_1 h : types__Commit_ValidateBasic__if_commit_Height_ge_1 (Z.of_N h) = N.leb 1 h.
+Proof.
+  unfold types__Commit_ValidateBasic__if_commit_Height_ge_1. rewrite Z.geb_leb.
+  destruct (Z.leb_spec 1 (Z.of_N h)); destruct (N.leb_spec 1 h); try reflexivity; lia.
+Qed.
+Lemma src_commit_validate_basic c :
+  commit_validate_basic c =
+  if types__Commit_ValidateBasic__if_commit_Height_ge_1 (Z.of_N (c_height c)) then
+    (negb (types__Commit_ValidateBasic__if_commit_BlockID_IsZero (bid_is_zero (c_bid c)))
+     && negb (types__Commit_ValidateBasic__if_len_commit_Signatures_eq_0 (Z.of_nat (List.length (c_sigs c))))
+     && forallb cs_validate_basic (c_sigs c))%bool
+  else true.
+Proof.
+  unfold commit_validate_basic. rewrite src_commit_height_ge_1.
+  unfold types__Commit_ValidateBasic__if_commit_BlockID_IsZero, types__Commit_ValidateBasic__if_len_commit_Signatures_eq_0.
+  rewrite Zof_nat_eqb0. destruct (c_sigs c); reflexivity.
+Qed.
+(** an absent slot must be empty; a present slot must carry a signature ([e] = signature length is 0) *)
+Lemma src_cs_validate_basic cs n :
+  s_empty (cs_sig cs) = Nat.eqb n 0 ->
+  cs_validate_basic cs =
+  if types__CommitSig_Absent__ret_cs_BlockIDFlag_eq_BlockIDFlagAbsent (Z.of_N (cs_flag cs)) then
+    (negb (types__CommitSig_ValidateBasic__if_not_cs_ValidatorAddress_Equal_common_Address (N.eqb (cs_addr cs) 0))
+     && negb (types__CommitSig_ValidateBasic__if_not_cs_Timestamp_IsZero (N.eqb (cs_time cs) 0))
+     && negb (types__CommitSig_ValidateBasic__if_len_cs_Signature_ne_0 (Z.of_nat n)))%bool
+  else if (N.eqb (cs_flag cs) FLAG_COMMIT || N.eqb (cs_flag cs) FLAG_NIL)%bool then
+    negb (types__CommitSig_ValidateBasic__if_len_cs_Signature_eq_0 (Z.of_nat n))
+  else false.
+Proof.
+  intros He. unfold cs_validate_basic. rewrite src_absent.
+  unfold types__CommitSig_ValidateBasic__if_not_cs_ValidatorAddress_Equal_common_Address,
+    types__CommitSig_ValidateBasic__if_not_cs_Timestamp_IsZero,
+    types__CommitSig_ValidateBasic__if_len_cs_Signature_ne_0,
+    types__CommitSig_ValidateBasic__if_len_cs_Signature_eq_0, go_neqb.
+  rewrite Zof_nat_eqb0, <- He, !negb_involutive. reflexivity.
+Qed.
+(** CommitToVoteSet panics unless the slot was added without error *)
+Lemma src_ctv_guard (added : bool) (e : verr) :
+  (match e with ENone => if added then false else true | _ => true end)
+  = types__CommitToVoteSet__if_not_added_or_err_ne_nil added (match e with ENone => false | _ => true end).
+Proof. destruct e, added; reflexivity. Qed.
+Lemma src_ctv_guard_atoms :
+  types__CommitToVoteSet__if_not_added_or_err_ne_nil_atoms = ["added : bool"; "err != nil : bool"]%string.
+Proof. reflexivity. Qed.
+(** Vote.ValidateBasic's block-id rule is the wire-validity hypothesis of C02_commit_roundtrip *)
+Lemma src_wire_valid b :
+  negb (types__Vote_ValidateBasic__if_not_vote_BlockID_IsZero_and_not_vote_BlockID_IsComplete (bid_is_zero b) (bid_is_complete b))
+  = (bid_is_zero b || bid_is_complete b)%bool.
+Proof. unfold types__Vote_ValidateBasic__if_not_vote_BlockID_IsZero_and_not_vote_BlockID_IsComplete. destruct (bid_is_zero b), (bid_is_complete b); reflexivity. Qed.
+
+(** ** VerifyCommit: the tally starts at the constant the source assigns *)
+Lemma src_verify_commit_start vals chain want h c :
+  verify_commit vals chain want h c =
+  if negb (commit_validate_basic c) then CBasic
+  else if negb (Nat.eqb (List.length vals) (List.length (c_sigs c))) then CSize
+  else if negb (N.eqb h (c_height c)) then CHeight
+  else if negb (bid_eqb want (c_bid c)) then CBlockID
+  else match tally chain (c_height c) (c_round c) (c_bid c) want vals (c_sigs c)
+                   types__ValidatorSet_VerifyCommit__let_talliedVotingPower with
+       | TSig => CSig
+       | TAddr => CAddr
+       | TOk got => if types__ValidatorSet_VerifyCommit__if_got_le_needed got
+                          (types__ValidatorSet_VerifyCommit__set_votingPowerNeeded (total_power vals))
+                    then CPower else COk
+       end.
+Proof. reflexivity. Qed.
+Lemma src_height_guard h h' : types__ValidatorSet_VerifyCommit__if_height_ne_commit_GetHeight (Z.of_N h) (Z.of_N h') = negb (N.eqb h h').
+Proof. exact (Zof_N_neqb h h'). Qed.
+
+(** ** updateTotalVotingPower: the fold of safeAddClip from the constant the source assigns *)
+Lemma safe_add_clip_in_range a b : in_range I64 (safe_add_clip a b).
+Proof.
+  unfold safe_add_clip, in_range, max_int64, min_int64, two63. cbv zeta.
+  repeat match goal with |- context [Z.ltb ?x ?y] => destruct (Z.ltb_spec x y) end; lia.
+Qed.
+Lemma src_total_power_fold vals : forall acc,
+  in_range I64 acc -> Forall (fun v => in_range I64 (val_power v)) vals ->
+  fold_left (fun a v => safe_add_clip a (val_power v)) vals acc
+  = fold_left (fun a v => types__ValidatorSet_updateTotalVotingPower__let_sum_2 (types__safeAddClip a (val_power v))) vals acc.
+Proof.
+  induction vals as [|v t IH]; intros acc Ha Hf; [reflexivity|].
+  inversion Hf as [|? ? Hv Ht]; subst. cbn [fold_left].
+  unfold types__ValidatorSet_updateTotalVotingPower__let_sum_2 at 2.
+  rewrite (src_safeAddClip acc (val_power v) Ha Hv).
+  apply IH; [apply safe_add_clip_in_range|exact Ht].
+Qed.
+Lemma src_total_power vals :
+  Forall (fun v => in_range I64 (val_power v)) vals ->
+  total_power vals
+  = types__ValidatorSet_updateTotalVotingPower__put_vs_totalVotingPower
+      (fold_left (fun a v => types__ValidatorSet_updateTotalVotingPower__let_sum_2 (types__safeAddClip a (val_power v)))
+                 vals types__ValidatorSet_updateTotalVotingPower__let_sum).
+Proof.
+  intros Hf. unfold total_power, types__ValidatorSet_updateTotalVotingPower__put_vs_totalVotingPower,
+    types__ValidatorSet_updateTotalVotingPower__let_sum.
+  apply src_total_power_fold; [unfold in_range; lia|exact Hf].
+Qed.
+Lemma src_total_power_atoms :
+  types__ValidatorSet_updateTotalVotingPower__let_sum_2_atoms = ["safeAddClip(sum, val.VotingPower) : int64"]%string
+  /\ types__ValidatorSet_updateTotalVotingPower__put_vs_totalVotingPower_atoms = ["sum : int64"]%string
+  /\ types__ValidatorSet_TotalVotingPower__if_vs_totalVotingPower_eq_0_atoms = ["vs.totalVotingPower : int64"]%string.
+Proof. repeat split; reflexivity. Qed.
+
+(** ** block ids down to the parts header *)
+Lemma src_bid_is_zero_full b :
+  bid_is_zero b = types__BlockID_IsZero__ret_blockID_Hash_IsZero_and_blockID_PartsHeader_IsZero (N.eqb (b_hash b) 0)
+                    (types__PartSetHeader_IsZero__ret_psh_Total_eq_0_and_psh_Hash_IsZero (Z.of_N (b_total b)) (N.eqb (b_phash b) 0)).
+Proof.
+  unfold bid_is_zero, types__BlockID_IsZero__ret_blockID_Hash_IsZero_and_blockID_PartsHeader_IsZero,
+    types__PartSetHeader_IsZero__ret_psh_Total_eq_0_and_psh_Hash_IsZero.
+  change 0 with (Z.of_N 0) at 1. rewrite Zof_N_eqb. reflexivity.
+Qed.
+Lemma src_bid_eqb_full a b :
+  bid_eqb a b = types__BlockID_Equal__ret_blockID_Hash_Equal_other_Hash_and_blockID_PartsHeader_Equals_d815eb38
+                  (N.eqb (b_hash a) (b_hash b))
+                  (types__PartSetHeader_Equals__ret_psh_Total_eq_other_Total_and_common_Hash_Equal_psh_Hash_other_Hash
+                     (Z.of_N (b_total a)) (Z.of_N (b_total b)) (N.eqb (b_phash a) (b_phash b))).
+Proof.
+  unfold bid_eqb, types__BlockID_Equal__ret_blockID_Hash_Equal_other_Hash_and_blockID_PartsHeader_Equals_d815eb38,
+    types__PartSetHeader_Equals__ret_psh_Total_eq_other_Total_and_common_Hash_Equal_psh_Hash_other_Hash.
+  rewrite Zof_N_eqb, andb_assoc. reflexivity.
+Qed.
+Lemma src_psh_atoms :
+  types__PartSetHeader_IsZero__ret_psh_Total_eq_0_and_psh_Hash_IsZero_atoms = ["psh.Total : uint32"; "psh.Hash.IsZero() : bool"]%string
+  /\ types__PartSetHeader_Equals__ret_psh_Total_eq_other_Total_and_common_Hash_Equal_psh_Hash_other_Hash_atoms
+     = ["psh.Total : uint32"; "other.Total : uint32"; "common.Hash.Equal(psh.Hash, other.Hash) : bool"]%string.
+Proof. split; reflexivity. Qed.
+
+(** ** HeightVoteSet *)
+(** NewHeightVoteSet starts at round 1 *)
+Lemma src_hvs_new_round chain h vals s :
+  hvs_new chain h vals = Some s -> Z.of_N (h_round s) = consensus_types__NewHeightVoteSet__put_hvs_round.
+Proof.
+  unfold hvs_new. destruct (hvs_add_round _ 1) as [s0|]; [|discriminate]. intros E; injection E as <-. reflexivity.
+Qed.
+(** SetRound: newRound is hvs.round - 1 in uint32 (0 wraps to MaxUint32) *)
+Lemma src_pred32 r : Z.of_N r <= 4294967295 -> Z.of_N (pred32 r) = consensus_types__HeightVoteSet_SetRound__set_newRound (Z.of_N r).
+Proof.
+  intros Hr. unfold pred32, consensus_types__HeightVoteSet_SetRound__set_newRound, go_sub, wrap, U32MAX.
+  destruct (N.eqb_spec r 0) as [->|Hne]; [reflexivity|].
+  rewrite Z.mod_small by lia. lia.
+Qed.
+Lemma src_setround_guard hr r nr :
+  consensus_types__HeightVoteSet_SetRound__if_hvs_round_ne_1_and_round_lt_newRound (Z.of_N hr) (Z.of_N r) (Z.of_N nr)
+  = (negb (N.eqb hr 1) && N.ltb r nr)%bool.
+Proof.
+  unfold consensus_types__HeightVoteSet_SetRound__if_hvs_round_ne_1_and_round_lt_newRound.
+  change 1 with (Z.of_N 1). rewrite Zof_N_neqb. f_equal.
+  destruct (Z.ltb_spec (Z.of_N r) (Z.of_N nr)); destruct (N.ltb_spec r nr); try reflexivity; lia.
+Qed.
+Lemma src_setround_guard_atoms :
+  consensus_types__HeightVoteSet_SetRound__if_hvs_round_ne_1_and_round_lt_newRound_atoms
+  = ["hvs.round : uint32"; "round : uint32"; "newRound : uint32"]%string
+  /\ consensus_types__HeightVoteSet_SetRound__set_newRound_atoms = ["hvs.round : uint32"]%string
+  /\ consensus_types__HeightVoteSet_SetRound__forinit_r_atoms = ["newRound : uint32"]%string
+  /\ consensus_types__HeightVoteSet_SetRound__for_r_le_round_atoms = ["r : uint32"; "round : uint32"]%string
+  /\ consensus_types__HeightVoteSet_SetRound__put_hvs_round_atoms = ["round : uint32"]%string.
+Proof. repeat split; reflexivity. Qed.
+(** the loop [for r := newRound; r <= round; r++] runs exactly the model's count of iterations *)
+Lemma src_setround_count nr round k :
+  (k < N.to_nat (N.succ round - nr))%nat <->
+  consensus_types__HeightVoteSet_SetRound__for_r_le_round
+    (consensus_types__HeightVoteSet_SetRound__forinit_r (Z.of_N nr) + Z.of_nat k) (Z.of_N round) = true.
+Proof.
+  unfold consensus_types__HeightVoteSet_SetRound__for_r_le_round, consensus_types__HeightVoteSet_SetRound__forinit_r.
+  rewrite Z.leb_le. lia.
+Qed.
+Lemma src_setround_incr r : Z.of_N r < 4294967295 ->
+  consensus_types__HeightVoteSet_SetRound__set_r_op (Z.of_N r) = Z.of_N (N.succ r).
+Proof.
+  intros Hr. unfold consensus_types__HeightVoteSet_SetRound__set_r_op, go_add, wrap.
+  rewrite Z.mod_small by lia. lia.
+Qed.
+(** a peer may open a round through AddVote while it has opened fewer than two *)
+Lemma src_catchup_guard (l : list N) :
+  consensus_types__HeightVoteSet_AddVote__if_len_rndz_lt_2 (Z.of_nat (List.length l)) = Nat.ltb (List.length l) 2.
+Proof.
+  unfold consensus_types__HeightVoteSet_AddVote__if_len_rndz_lt_2.
+  destruct (Z.ltb_spec (Z.of_nat (List.length l)) 2); destruct (Nat.ltb_spec (List.length l) 2); try reflexivity; lia.
+Qed.
+Lemma src_catchup_guard_atoms :
+  consensus_types__HeightVoteSet_AddVote__if_len_rndz_lt_2_atoms = ["len(rndz) : int"]%string.
+Proof. reflexivity. Qed.
+(** POLInfo scans r = hvs.round, hvs.round-1, ..., 1 *)
+Lemma src_pol_for k :
+  consensus_types__HeightVoteSet_POLInfo__for_r_ge_1 (Z.of_nat k) = match k with O => false | S _ => true end.
+Proof.
+  unfold consensus_types__HeightVoteSet_POLInfo__for_r_ge_1. rewrite Z.geb_leb.
+  destruct k; [reflexivity|]. destruct (Z.leb_spec 1 (Z.of_nat (S k))); [reflexivity|lia].
+Qed.
+Lemma src_pol_decr k : Z.of_nat (S k) <= 4294967295 ->
+  consensus_types__HeightVoteSet_POLInfo__set_r_op (Z.of_nat (S k)) = Z.of_nat k.
+Proof.
+  intros Hk. unfold consensus_types__HeightVoteSet_POLInfo__set_r_op, go_sub, wrap.
+  rewrite Z.mod_small by lia. lia.
+Qed.
+Lemma src_pol_atoms :
+  consensus_types__HeightVoteSet_POLInfo__forinit_r_atoms = ["hvs.round : uint32"]%string
+  /\ consensus_types__HeightVoteSet_POLInfo__for_r_ge_1_atoms = ["r : uint32"]%string
+  /\ consensus_types__HeightVoteSet_POLInfo__set_r_op_atoms = ["r : uint32"]%string.
+Proof. repeat split; reflexivity. Qed.
+(** [pol_scan] is that loop: one unfolding per iteration *)
+Lemma src_pol_scan s k :
+  pol_scan s k =
+  if consensus_types__HeightVoteSet_POLInfo__for_r_ge_1 (Z.of_nat k) then
+    match get_vs s (N.of_nat k) PREVOTE with
+    | Some vs => match vs_maj23 vs with
+                 | Some b => (N.of_nat k, b)
+                 | None => pol_scan s (Nat.pred k)
+                 end
+    | None => pol_scan s (Nat.pred k)
+    end
+  else (0%N, bid_zero).
+Proof. rewrite src_pol_for. destruct k; reflexivity. Qed.
+
+(** ** Vote.ValidateBasic / Vote.Verify *)
+Lemma src_vote_validate_basic v n :
+  s_empty (v_sig v) = Nat.eqb n 0 ->
+  vote_validate_basic v =
+  (negb (types__Vote_ValidateBasic__if_not_IsVoteTypeValid_vote_Type (type_valid (v_type v)))
+   && negb (types__Vote_ValidateBasic__if_not_vote_BlockID_IsZero_and_not_vote_BlockID_IsComplete (bid_is_zero (v_bid v)) (bid_is_complete (v_bid v)))
+   && negb (types__Vote_ValidateBasic__if_len_vote_Signature_eq_0 (Z.of_nat n)))%bool.
+Proof.
+  intros He. unfold vote_validate_basic, types__Vote_ValidateBasic__if_not_IsVoteTypeValid_vote_Type,
+    types__Vote_ValidateBasic__if_len_vote_Signature_eq_0.
+  rewrite src_wire_valid, Zof_nat_eqb0, <- He, negb_involutive. reflexivity.
+Qed.
+Lemma src_vote_verify chain addr v :
+  vote_verify chain addr v =
+  if types__Vote_Verify__if_not_vote_ValidatorAddress_Equal_address (N.eqb (v_addr v) addr) then VVAddr
+  else if types__Vote_Verify__if_not_VerifySignature_address_crypto_Keccak256_signBytes_vote_Signature (vote_sig_valid chain addr v)
+       then VVSig else VVOk.
+Proof.
+  unfold vote_verify, types__Vote_Verify__if_not_vote_ValidatorAddress_Equal_address,
+    types__Vote_Verify__if_not_VerifySignature_address_crypto_Keccak256_signBytes_vote_Signature.
+  destruct (negb (N.eqb (v_addr v) addr)); [reflexivity|]. destruct (vote_sig_valid chain addr v); reflexivity.
+Qed.
+
+(** ** tagged switches (go2coq third revision): vote type and BlockIDFlag dispatch *)
+Lemma src_type_valid t :
+  type_valid t = (types__IsVoteTypeValid__case_t_eq_kproto_PrevoteType (Z.of_N t)
+                  || types__IsVoteTypeValid__case_t_eq_kproto_PrecommitType (Z.of_N t))%bool.
+Proof.
+  unfold type_valid, types__IsVoteTypeValid__case_t_eq_kproto_PrevoteType, types__IsVoteTypeValid__case_t_eq_kproto_PrecommitType.
+  change 1 with (Z.of_N PREVOTE). change 2 with (Z.of_N PRECOMMIT). rewrite !Zof_N_eqb. reflexivity.
+Qed.
+(** CommitSig.BlockID: absent -> nil id, commit -> the commit's id, nil -> nil id, anything else panics *)
+Lemma src_cs_blockid cs cb :
+  cs_blockid cs cb =
+  if types__CommitSig_BlockID__case_cs_BlockIDFlag_eq_BlockIDFlagAbsent (Z.of_N (cs_flag cs)) then Some bid_zero
+  else if types__CommitSig_BlockID__case_cs_BlockIDFlag_eq_BlockIDFlagCommit (Z.of_N (cs_flag cs)) then Some cb
+  else if types__CommitSig_BlockID__case_cs_BlockIDFlag_eq_BlockIDFlagNil (Z.of_N (cs_flag cs)) then Some bid_zero
+  else None.
+Proof.
+  unfold cs_blockid, types__CommitSig_BlockID__case_cs_BlockIDFlag_eq_BlockIDFlagAbsent,
+    types__CommitSig_BlockID__case_cs_BlockIDFlag_eq_BlockIDFlagCommit, types__CommitSig_BlockID__case_cs_BlockIDFlag_eq_BlockIDFlagNil.
+  change 1 with (Z.of_N FLAG_ABSENT). change 2 with (Z.of_N FLAG_COMMIT). change 3 with (Z.of_N FLAG_NIL).
+  rewrite !Zof_N_eqb. reflexivity.
+Qed.
+(** CommitSig.ValidateBasic: first switch = the flag is one of the three, second switch = absent or not *)
+Lemma src_cs_validate_basic_switch cs n :
+  s_empty (cs_sig cs) = Nat.eqb n 0 ->
+  cs_validate_basic cs =
+  if negb (types__CommitSig_ValidateBasic__case_cs_BlockIDFlag_eq_BlockIDFlagAbsent (Z.of_N (cs_flag cs))
+           || types__CommitSig_ValidateBasic__case_cs_BlockIDFlag_eq_BlockIDFlagCommit (Z.of_N (cs_flag cs))
+           || types__CommitSig_ValidateBasic__case_cs_BlockIDFlag_eq_BlockIDFlagNil (Z.of_N (cs_flag cs))) then false
+  else if types__CommitSig_ValidateBasic__case_cs_BlockIDFlag_eq_BlockIDFlagAbsent_2 (Z.of_N (cs_flag cs)) then
+    (negb (types__CommitSig_ValidateBasic__if_not_cs_ValidatorAddress_Equal_common_Address (N.eqb (cs_addr cs) 0))
+     && negb (types__CommitSig_ValidateBasic__if_not_cs_Timestamp_IsZero (N.eqb (cs_time cs) 0))
+     && negb (types__CommitSig_ValidateBasic__if_len_cs_Signature_ne_0 (Z.of_nat n)))%bool
+  else negb (types__CommitSig_ValidateBasic__if_len_cs_Signature_eq_0 (Z.of_nat n)).
+Proof.
+  intros He. rewrite (src_cs_validate_basic cs n He), src_absent.
+  unfold types__CommitSig_ValidateBasic__case_cs_BlockIDFlag_eq_BlockIDFlagAbsent,
+    types__CommitSig_ValidateBasic__case_cs_BlockIDFlag_eq_BlockIDFlagCommit,
+    types__CommitSig_ValidateBasic__case_cs_BlockIDFlag_eq_BlockIDFlagNil,
+    types__CommitSig_ValidateBasic__case_cs_BlockIDFlag_eq_BlockIDFlagAbsent_2.
+  change 1 with (Z.of_N FLAG_ABSENT). change 2 with (Z.of_N FLAG_COMMIT). change 3 with (Z.of_N FLAG_NIL).
+  rewrite !Zof_N_eqb.
+  destruct (N.eqb (cs_flag cs) FLAG_ABSENT); [reflexivity|]. cbn [orb].
+  destruct (N.eqb (cs_flag cs) FLAG_COMMIT || N.eqb (cs_flag cs) FLAG_NIL)%bool; reflexivity.
+Qed.
+(** HeightVoteSet.getVoteSet: prevote -> the round's prevotes, precommit -> its precommits *)
+Lemma src_get_vs s r ty :
+  type_valid ty = true ->
+  get_vs s r ty =
+  match rs_find r (h_sets s) with
+  | None => None
+  | Some rv =>
+    if consensus_types__HeightVoteSet_getVoteSet__case_signedMsgType_eq_kproto_PrevoteType (Z.of_N ty) then Some (rv_pre rv)
+    else if consensus_types__HeightVoteSet_getVoteSet__case_signedMsgType_eq_kproto_PrecommitType (Z.of_N ty) then Some (rv_com rv)
+    else None
+  end.
+Proof.
+  intros Hty. unfold get_vs, consensus_types__HeightVoteSet_getVoteSet__case_signedMsgType_eq_kproto_PrevoteType,
+    consensus_types__HeightVoteSet_getVoteSet__case_signedMsgType_eq_kproto_PrecommitType.
+  change 1 with (Z.of_N PREVOTE). change 2 with (Z.of_N PRECOMMIT). rewrite !Zof_N_eqb.
+  destruct (rs_find r (h_sets s)); [|reflexivity]. unfold type_valid in Hty.
+  destruct (N.eqb ty PREVOTE); [reflexivity|]. cbn [orb] in Hty. rewrite Hty. reflexivity.
+Qed.
+Lemma src_switch_atoms :
+  types__IsVoteTypeValid__case_t_eq_kproto_PrevoteType_atoms = ["t : github.com/kardiachain/go-kardia/proto/kardiachain/types.SignedMsgType"]%string
+  /\ types__CommitSig_BlockID__case_cs_BlockIDFlag_eq_BlockIDFlagCommit_atoms = ["cs.BlockIDFlag : github.com/kardiachain/go-kardia/types.BlockIDFlag"]%string
+  /\ types__CommitSig_ValidateBasic__case_cs_BlockIDFlag_eq_BlockIDFlagAbsent_2_atoms = ["cs.BlockIDFlag : github.com/kardiachain/go-kardia/types.BlockIDFlag"]%string
+  /\ consensus_types__HeightVoteSet_getVoteSet__case_signedMsgType_eq_kproto_PrevoteType_atoms
+     = ["signedMsgType : github.com/kardiachain/go-kardia/proto/kardiachain/types.SignedMsgType"]%string.
+Proof. repeat split; reflexivity. Qed.
+
+(** ** the second part as one statement *)
+Definition C02_source_tie2_statement : Prop :=
+  (* every single-atom condition of the anchored functions: atom and polarity *)
+  (pins_VoteSet_addVote /\ pins_VoteSet_addVerifiedVote /\ pins_VoteSet_HasTwoThirdsAny /\ pins_VoteSet_MakeCommit
+   /\ pins_ValidatorSet_VerifyCommit /\ pins_VoteSet_getVote /\ pins_VoteSet_SetPeerMaj23 /\ pins_VoteSet_TwoThirdsMajority
+   /\ pins_VoteSet_HasTwoThirdsMajority /\ pins_VoteSet_IsCommit /\ pins_VoteSet_GetByIndex /\ pins_VoteSet_BitArrayByBlockID
+   /\ pins_blockVotes_addVerifiedVote /\ pins_blockVotes_getByIndex /\ pins_Vote_CommitSig /\ pins_Vote_Verify
+   /\ pins_Vote_ValidateBasic /\ pins_CommitSig_ValidateBasic /\ pins_Commit_ValidateBasic /\ pins_Commit_Size
+   /\ pins_CommitToVoteSet /\ pins_HeightVoteSet_addRound /\ pins_HeightVoteSet_SetRound /\ pins_HeightVoteSet_AddVote
+   /\ pins_HeightVoteSet_getVoteSet /\ pins_HeightVoteSet_SetPeerMaj23 /\ pins_HeightVoteSet_POLInfo)
+  (* vote set *)
+  /\ (forall vs, add_vote_o vs None = (vs, false, None))
+  /\ (forall i, types__VoteSet_addVote__if_valIndex_lt_0 (Z.of_N i) = false)
+  /\ (forall h h' r r' t t',
+        types__VoteSet_addVote__if_vote_Height_ne_voteSet_height_or_vote_Round_ne_voteSet_round_5947c832
+          (Z.of_N h) (Z.of_N h') (Z.of_N r) (Z.of_N r') (Z.of_N t) (Z.of_N t')
+        = negb (N.eqb h h' && N.eqb r r' && N.eqb t t'))
+  /\ (forall (vals : list validator) i, Z.of_nat (List.length vals) <= 4294967295 ->
+        types__ValidatorSet_GetByIndex__if_index_ge_uint32_len_vs_Validators (Z.of_N i) (Z.of_nat (List.length vals))
+        = match nth_error vals (N.to_nat i) with None => true | Some _ => false end)
+  /\ (forall vs b,
+        maj_is vs b = types__VoteSet_addVerifiedVote__if_voteSet_maj23_ne_nil_and_voteSet_maj23_Key_eq_blockKey
+                        (match vs_maj23 vs with Some _ => true | None => false end)
+                        (match vs_maj23 vs with Some m => key_eqb m b | None => false end))
+  /\ (forall bv i v p,
+        bv_sum (bv_add bv i v p) =
+        if types__blockVotes_addVerifiedVote__if_existing_eq_nil (match vote_at (bv_votes bv) i with None => true | Some _ => false end)
+        then types__blockVotes_addVerifiedVote__set_sum_op (bv_sum bv) p else bv_sum bv)
+  /\ (forall s p, types__blockVotes_addVerifiedVote__set_sum_op s p = wrap64 (s + p))
+  /\ types__VoteSet_SetPeerMaj23__put_votesByBlock_peerMaj23 = true
+  (* commits *)
+  /\ (Z.of_N FLAG_ABSENT = types__BlockIDFlagAbsent /\ Z.of_N FLAG_COMMIT = types__BlockIDFlagCommit
+      /\ Z.of_N FLAG_NIL = types__BlockIDFlagNil
+      /\ types__Vote_CommitSig__let_blockIDFlag = Z.of_N FLAG_COMMIT
+      /\ types__Vote_CommitSig__let_blockIDFlag_2 = Z.of_N FLAG_NIL)
+  /\ (forall flag, types__CommitSig_Absent__ret_cs_BlockIDFlag_eq_BlockIDFlagAbsent (Z.of_N flag) = N.eqb flag FLAG_ABSENT)
+  /\ (forall flag, types__CommitSig_ForBlock__ret_cs_BlockIDFlag_eq_BlockIDFlagCommit (Z.of_N flag) = N.eqb flag FLAG_COMMIT)
+  /\ (forall t, types__VoteSet_MakeCommit__if_voteSet_signedMsgType_ne_kproto_PrecommitType (Z.of_N t) = negb (N.eqb t PRECOMMIT))
+  /\ (forall vs, is_commit vs = (negb (types__VoteSet_IsCommit__if_voteSet_signedMsgType_ne_kproto_PrecommitType (Z.of_N (vs_type vs)))
+                                 && match vs_maj23 vs with Some _ => true | None => false end)%bool)
+  /\ (forall flag eqm,
+        types__VoteSet_MakeCommit__if_commitSig_ForBlock_and_not_v_BlockID_Equal_mul_voteSet_maj23
+          (types__CommitSig_ForBlock__ret_cs_BlockIDFlag_eq_BlockIDFlagCommit (Z.of_N flag)) eqm
+        = (N.eqb flag FLAG_COMMIT && negb eqm)%bool)
+  /\ (forall h, types__NewVoteSet__if_height_eq_0 (Z.of_N h) = N.eqb h 0)
+  /\ (forall c,
+        commit_validate_basic c =
+        if types__Commit_ValidateBasic__if_commit_Height_ge_1 (Z.of_N (c_height c)) then
+          (negb (types__Commit_ValidateBasic__if_commit_BlockID_IsZero (bid_is_zero (c_bid c)))
+           && negb (types__Commit_ValidateBasic__if_len_commit_Signatures_eq_0 (Z.of_nat (List.length (c_sigs c))))
+           && forallb cs_validate_basic (c_sigs c))%bool
+        else true)
+  /\ (forall cs n, s_empty (cs_sig cs) = Nat.eqb n 0 ->
+        cs_validate_basic cs =
+        if types__CommitSig_Absent__ret_cs_BlockIDFlag_eq_BlockIDFlagAbsent (Z.of_N (cs_flag cs)) then
+          (negb (types__CommitSig_ValidateBasic__if_not_cs_ValidatorAddress_Equal_common_Address (N.eqb (cs_addr cs) 0))
+           && negb (types__CommitSig_ValidateBasic__if_not_cs_Timestamp_IsZero (N.eqb (cs_time cs) 0))
+           && negb (types__CommitSig_ValidateBasic__if_len_cs_Signature_ne_0 (Z.of_nat n)))%bool
+        else if (N.eqb (cs_flag cs) FLAG_COMMIT || N.eqb (cs_flag cs) FLAG_NIL)%bool then
+          negb (types__CommitSig_ValidateBasic__if_len_cs_Signature_eq_0 (Z.of_nat n))
+        else false)
+  /\ (forall (added : bool) (e : verr),
+        (match e with ENone => if added then false else true | _ => true end)
+        = types__CommitToVoteSet__if_not_added_or_err_ne_nil added (match e with ENone => false | _ => true end))
+  /\ (forall b,
+        negb (types__Vote_ValidateBasic__if_not_vote_BlockID_IsZero_and_not_vote_BlockID_IsComplete (bid_is_zero b) (bid_is_complete b))
+        = (bid_is_zero b || bid_is_complete b)%bool)
+  /\ (forall v n, s_empty (v_sig v) = Nat.eqb n 0 ->
+        vote_validate_basic v =
+        (negb (types__Vote_ValidateBasic__if_not_IsVoteTypeValid_vote_Type (type_valid (v_type v)))
+         && negb (types__Vote_ValidateBasic__if_not_vote_BlockID_IsZero_and_not_vote_BlockID_IsComplete (bid_is_zero (v_bid v)) (bid_is_complete (v_bid v)))
+         && negb (types__Vote_ValidateBasic__if_len_vote_Signature_eq_0 (Z.of_nat n)))%bool)
+  /\ (forall chain addr v,
+        vote_verify chain addr v =
+        if types__Vote_Verify__if_not_vote_ValidatorAddress_Equal_address (N.eqb (v_addr v) addr) then VVAddr
+        else if types__Vote_Verify__if_not_VerifySignature_address_crypto_Keccak256_signBytes_vote_Signature (vote_sig_valid chain addr v)
+             then VVSig else VVOk)
+  /\ (forall t, type_valid t = (types__IsVoteTypeValid__case_t_eq_kproto_PrevoteType (Z.of_N t)
+                                || types__IsVoteTypeValid__case_t_eq_kproto_PrecommitType (Z.of_N t))%bool)
+  /\ (forall cs cb,
+        cs_blockid cs cb =
+        if types__CommitSig_BlockID__case_cs_BlockIDFlag_eq_BlockIDFlagAbsent (Z.of_N (cs_flag cs)) then Some bid_zero
+        else if types__CommitSig_BlockID__case_cs_BlockIDFlag_eq_BlockIDFlagCommit (Z.of_N (cs_flag cs)) then Some cb
+        else if types__CommitSig_BlockID__case_cs_BlockIDFlag_eq_BlockIDFlagNil (Z.of_N (cs_flag cs)) then Some bid_zero
+        else None)
+  /\ (forall cs n, s_empty (cs_sig cs) = Nat.eqb n 0 ->
+        cs_validate_basic cs =
+        if negb (types__CommitSig_ValidateBasic__case_cs_BlockIDFlag_eq_BlockIDFlagAbsent (Z.of_N (cs_flag cs))
+                 || types__CommitSig_ValidateBasic__case_cs_BlockIDFlag_eq_BlockIDFlagCommit (Z.of_N (cs_flag cs))
+                 || types__CommitSig_ValidateBasic__case_cs_BlockIDFlag_eq_BlockIDFlagNil (Z.of_N (cs_flag cs))) then false
+        else if types__CommitSig_ValidateBasic__case_cs_BlockIDFlag_eq_BlockIDFlagAbsent_2 (Z.of_N (cs_flag cs)) then
+          (negb (types__CommitSig_ValidateBasic__if_not_cs_ValidatorAddress_Equal_common_Address (N.eqb (cs_addr cs) 0))
+           && negb (types__CommitSig_ValidateBasic__if_not_cs_Timestamp_IsZero (N.eqb (cs_time cs) 0))
+           && negb (types__CommitSig_ValidateBasic__if_len_cs_Signature_ne_0 (Z.of_nat n)))%bool
+        else negb (types__CommitSig_ValidateBasic__if_len_cs_Signature_eq_0 (Z.of_nat n)))
+  /\ (forall s r ty, type_valid ty = true ->
+        get_vs s r ty =
+        match rs_find r (h_sets s) with
+        | None => None
+        | Some rv =>
+          if consensus_types__HeightVoteSet_getVoteSet__case_signedMsgType_eq_kproto_PrevoteType (Z.of_N ty) then Some (rv_pre rv)
+          else if consensus_types__HeightVoteSet_getVoteSet__case_signedMsgType_eq_kproto_PrecommitType (Z.of_N ty) then Some (rv_com rv)
+          else None
+        end)
+  /\ types__ValidatorSet_VerifyCommit__let_talliedVotingPower = 0
+  /\ (forall n m, types__ValidatorSet_VerifyCommit__if_vs_Size_ne_len_commit_Signatures (Z.of_nat n) (Z.of_nat m) = negb (Nat.eqb n m))
+  /\ (forall h h', types__ValidatorSet_VerifyCommit__if_height_ne_commit_GetHeight (Z.of_N h) (Z.of_N h') = negb (N.eqb h h'))
+  (* total power, block ids *)
+  /\ (forall vals, Forall (fun v => in_range I64 (val_power v)) vals ->
+        total_power vals
+        = types__ValidatorSet_updateTotalVotingPower__put_vs_totalVotingPower
+            (fold_left (fun a v => types__ValidatorSet_updateTotalVotingPower__let_sum_2 (types__safeAddClip a (val_power v)))
+                       vals types__ValidatorSet_updateTotalVotingPower__let_sum))
+  /\ (forall b,
+        bid_is_zero b = types__BlockID_IsZero__ret_blockID_Hash_IsZero_and_blockID_PartsHeader_IsZero (N.eqb (b_hash b) 0)
+                          (types__PartSetHeader_IsZero__ret_psh_Total_eq_0_and_psh_Hash_IsZero (Z.of_N (b_total b)) (N.eqb (b_phash b) 0)))
+  /\ (forall b,
+        bid_is_complete b = types__BlockID_IsComplete__ret_not_blockID_Hash_IsZero_and_not_blockID_PartsHeader_IsZero (N.eqb (b_hash b) 0)
+                              (types__PartSetHeader_IsZero__ret_psh_Total_eq_0_and_psh_Hash_IsZero (Z.of_N (b_total b)) (N.eqb (b_phash b) 0)))
+  /\ (forall a b,
+        bid_eqb a b = types__BlockID_Equal__ret_blockID_Hash_Equal_other_Hash_and_blockID_PartsHeader_Equals_d815eb38
+                        (N.eqb (b_hash a) (b_hash b))
+                        (types__PartSetHeader_Equals__ret_psh_Total_eq_other_Total_and_common_Hash_Equal_psh_Hash_other_Hash
+                           (Z.of_N (b_total a)) (Z.of_N (b_total b)) (N.eqb (b_phash a) (b_phash b))))
+  (* HeightVoteSet *)
+  /\ (forall chain h vals s, hvs_new chain h vals = Some s -> Z.of_N (h_round s) = consensus_types__NewHeightVoteSet__put_hvs_round)
+  /\ (forall r, Z.of_N r <= 4294967295 -> Z.of_N (pred32 r) = consensus_types__HeightVoteSet_SetRound__set_newRound (Z.of_N r))
+  /\ (forall hr r nr,
+        consensus_types__HeightVoteSet_SetRound__if_hvs_round_ne_1_and_round_lt_newRound (Z.of_N hr) (Z.of_N r) (Z.of_N nr)
+        = (negb (N.eqb hr 1) && N.ltb r nr)%bool)
+  /\ (forall nr round k,
+        (k < N.to_nat (N.succ round - nr))%nat <->
+        consensus_types__HeightVoteSet_SetRound__for_r_le_round
+          (consensus_types__HeightVoteSet_SetRound__forinit_r (Z.of_N nr) + Z.of_nat k) (Z.of_N round) = true)
+  /\ (forall r, Z.of_N r < 4294967295 -> consensus_types__HeightVoteSet_SetRound__set_r_op (Z.of_N r) = Z.of_N (N.succ r))
+  /\ (forall r, consensus_types__HeightVoteSet_SetRound__put_hvs_round r = r)
+  /\ (forall l : list N, consensus_types__HeightVoteSet_AddVote__if_len_rndz_lt_2 (Z.of_nat (List.length l)) = Nat.ltb (List.length l) 2)
+  /\ (forall s k,
+        pol_scan s k =
+        if consensus_types__HeightVoteSet_POLInfo__for_r_ge_1 (Z.of_nat k) then
+          match get_vs s (N.of_nat k) PREVOTE with
+          | Some vs => match vs_maj23 vs with
+                       | Some b => (N.of_nat k, b)
+                       | None => pol_scan s (Nat.pred k)
+                       end
+          | None => pol_scan s (Nat.pred k)
+          end
+        else (0%N, bid_zero))
+  /\ (forall k, Z.of_nat (S k) <= 4294967295 -> consensus_types__HeightVoteSet_POLInfo__set_r_op (Z.of_nat (S k)) = Z.of_nat k)
+  /\ (forall r, consensus_types__HeightVoteSet_POLInfo__forinit_r r = r)
+  (* operand names of the new arithmetic *)
+  /\ (types__ValidatorSet_GetByIndex__if_index_ge_uint32_len_vs_Validators_atoms = ["index : uint32"; "len(vs.Validators) : int"]%string
+      /\ types__blockVotes_addVerifiedVote__set_sum_op_atoms = ["vs.sum : int64"; "votingPower : int64"]%string
+      /\ types__CommitToVoteSet__if_not_added_or_err_ne_nil_atoms = ["added : bool"; "err != nil : bool"]%string
+      /\ types__ValidatorSet_updateTotalVotingPower__let_sum_2_atoms = ["safeAddClip(sum, val.VotingPower) : int64"]%string
+      /\ types__ValidatorSet_updateTotalVotingPower__put_vs_totalVotingPower_atoms = ["sum : int64"]%string
+      /\ consensus_types__HeightVoteSet_SetRound__if_hvs_round_ne_1_and_round_lt_newRound_atoms
+         = ["hvs.round : uint32"; "round : uint32"; "newRound : uint32"]%string
+      /\ consensus_types__HeightVoteSet_SetRound__set_newRound_atoms = ["hvs.round : uint32"]%string
+      /\ consensus_types__HeightVoteSet_SetRound__forinit_r_atoms = ["newRound : uint32"]%string
+      /\ consensus_types__HeightVoteSet_SetRound__put_hvs_round_atoms = ["round : uint32"]%string
+      /\ consensus_types__HeightVoteSet_AddVote__if_len_rndz_lt_2_atoms = ["len(rndz) : int"]%string
+      /\ consensus_types__HeightVoteSet_POLInfo__forinit_r_atoms = ["hvs.round : uint32"]%string).
+
+Lemma C02_source_tie2_proof : C02_source_tie2_statement.
+Proof.
+  unfold C02_source_tie2_statement.
+  split. { repeat split;
+           first [ exact pins_VoteSet_addVote_ok | exact pins_VoteSet_addVerifiedVote_ok | exact pins_VoteSet_HasTwoThirdsAny_ok
+                 | exact pins_VoteSet_MakeCommit_ok | exact pins_ValidatorSet_VerifyCommit_ok | exact pins_VoteSet_getVote_ok
+                 | exact pins_VoteSet_SetPeerMaj23_ok | exact pins_VoteSet_TwoThirdsMajority_ok
+                 | exact pins_VoteSet_HasTwoThirdsMajority_ok | exact pins_VoteSet_IsCommit_ok | exact pins_VoteSet_GetByIndex_ok
+                 | exact pins_VoteSet_BitArrayByBlockID_ok | exact pins_blockVotes_addVerifiedVote_ok
+                 | exact pins_blockVotes_getByIndex_ok | exact pins_Vote_CommitSig_ok | exact pins_Vote_Verify_ok
+                 | exact pins_Vote_ValidateBasic_ok | exact pins_CommitSig_ValidateBasic_ok | exact pins_Commit_ValidateBasic_ok
+                 | exact pins_Commit_Size_ok | exact pins_CommitToVoteSet_ok | exact pins_HeightVoteSet_addRound_ok
+                 | exact pins_HeightVoteSet_SetRound_ok | exact pins_HeightVoteSet_AddVote_ok
+                 | exact pins_HeightVoteSet_getVoteSet_ok | exact pins_HeightVoteSet_SetPeerMaj23_ok
+                 | exact pins_HeightVoteSet_POLInfo_ok ]. }
+  split; [exact src_nil_vote|]. split; [intros i; exact (proj1 (src_index_never_negative i))|].
+  split; [exact src_step_guard|]. split; [exact src_get_by_index|]. split; [exact src_maj_is|].
+  split; [exact src_bv_add|]. split; [reflexivity|]. split; [reflexivity|].
+  split; [exact src_flags|]. split; [exact src_absent|]. split; [exact src_for_block|].
+  split; [exact src_precommit_guard|]. split; [exact src_is_commit|]. split; [exact src_make_commit_exclude|].
+  split; [exact src_height0|]. split; [exact src_commit_validate_basic|]. split; [exact src_cs_validate_basic|].
+  split; [exact src_ctv_guard|]. split; [exact src_wire_valid|].
+  split; [exact src_vote_validate_basic|]. split; [exact src_vote_verify|].
+  split; [exact src_type_valid|]. split; [exact src_cs_blockid|]. split; [exact src_cs_validate_basic_switch|].
+  split; [exact src_get_vs|]. split; [reflexivity|].
+  split; [exact src_size_guard|]. split; [exact src_height_guard|].
+  split; [exact src_total_power|]. split; [exact src_bid_is_zero_full|].
+  split. { intros b. rewrite src_bid_is_complete.
+           unfold types__PartSetHeader_IsZero__ret_psh_Total_eq_0_and_psh_Hash_IsZero.
+           replace (Z.of_N (b_total b) =? 0) with (N.eqb (b_total b) 0) by (symmetry; exact (Zof_N_eqb (b_total b) 0)).
+           reflexivity. }
+  split; [exact src_bid_eqb_full|].
+  split; [exact src_hvs_new_round|]. split; [exact src_pred32|]. split; [exact src_setround_guard|].
+  split; [exact src_setround_count|]. split; [exact src_setround_incr|]. split; [reflexivity|].
+  split; [exact src_catchup_guard|]. split; [exact src_pol_scan|]. split; [exact src_pol_decr|].
+  split; [reflexivity|]. repeat split; reflexivity.
+Qed.
+
 (** ** the whole tie, as one statement (quoted by Properties.v) *)
 Definition C02_source_tie_statement : Prop :=
   (forall a b, in_range I64 a -> in_range I64 b -> types__safeAddClip a b = safe_add_clip a b)
@@ -158,7 +935,8 @@ Definition C02_source_tie_statement : Prop :=
       /\ types__VoteSet_addVerifiedVote__if_origSum_lt_quorum_and_quorum_le_votesByBlock_sum_atoms = ["origSum : int64"; "quorum : int64"; "votesByBlock.sum : int64"]%string
       /\ types__VoteSet_HasTwoThirdsAny__ret_voteSet_sum_gt_voteSet_valSet_TotalVotingPower_mul_2_div_3_atoms = ["voteSet.sum : int64"; "voteSet.valSet.TotalVotingPower() : int64"]%string
       /\ types__ValidatorSet_VerifyCommit__set_votingPowerNeeded_atoms = ["vs.TotalVotingPower() : int64"]%string
-      /\ types__ValidatorSet_VerifyCommit__if_got_le_needed_atoms = ["got : int64"; "needed : int64"]%string).
+      /\ types__ValidatorSet_VerifyCommit__if_got_le_needed_atoms = ["got : int64"; "needed : int64"]%string)
+  /\ C02_source_tie2_statement.
 
 Lemma C02_source_tie_proof : C02_source_tie_statement.
 Proof.
@@ -167,5 +945,5 @@ Proof.
   split; [exact src_quorum|]. split; [exact src_crossed|]. split; [exact src_sum_add|].
   split; [exact src_two_thirds_any|]. split; [exact src_has_all|]. split; [exact src_conflict_guard|].
   split; [exact src_needed|]. split; [exact src_tally_add|]. split; [exact src_enough|].
-  split; [exact src_cap_guard|]. repeat split; reflexivity.
+  split; [exact src_cap_guard|]. split; [repeat split; reflexivity|]. exact C02_source_tie2_proof.
 Qed.
